@@ -357,4 +357,30 @@ theorem nodup_keys_spread (acc : CallArgs) (v : V) (acc' : CallArgs)
         · simp only [hk, Bool.false_eq_true, if_false] at hadd
           exact ih _ (nodup_keys_setAssoc _ _ _ h) hadd
 
+theorem hasKey_setAssoc_self {β} (x : Name) (v : β) (m : List (Name × β)) : hasKey x (setAssoc x v m) = true := by
+  simp [hasKey, getAssoc_setAssoc_self]
+
+theorem hasKey_setAssoc_mono {β} (x y : Name) (v : β) (m : List (Name × β)) (h : hasKey y m = true) :
+    hasKey y (setAssoc x v m) = true := by
+  by_cases hxy : y = x
+  · subst hxy; exact hasKey_setAssoc_self _ _ _
+  · simpa [hasKey, getAssoc_setAssoc_ne hxy] using h
+
+theorem hasKey_foldl_mapSplat (kv : List (List Char × Atom)) :
+    ∀ (m : List (Name × V)) (y : Name),
+      (hasKey y m = true ∨ ∃ p ∈ kv, normName p.1 = y) →
+      hasKey y (kv.foldl (fun m p => (omInsert (normName p.1) (.atom p.2) m).1) m) = true := by
+  induction kv with
+  | nil => intro m y h; rcases h with h | ⟨p, hp, _⟩; exact h; simp at hp
+  | cons a r ih =>
+    intro m y h
+    simp only [List.foldl_cons]
+    apply ih
+    rcases h with h | ⟨p, hp, hpe⟩
+    · exact Or.inl (hasKey_setAssoc_mono _ _ _ _ h)
+    · simp only [List.mem_cons] at hp
+      rcases hp with rfl | hp
+      · left; simp only [omInsert]; rw [← hpe]; exact hasKey_setAssoc_self _ _ _
+      · exact Or.inr ⟨p, hp, hpe⟩
+
 end Core
